@@ -182,12 +182,15 @@ fn apply_run(base: &Components, run: &Value) -> Components {
     }
     if let Some(d) = run.get("addpv").and_then(|x| x.as_array()) {
         let values: Vec<f32> = d.iter().map(|x| x.as_f64().unwrap_or(0.0) as f32).collect();
+        // an increment of another length than the building's time layout is not a valid transform
+        if c.data.first().map(|e| e.num_steps()) == Some(values.len()) {
         c.data.push(Energy::Prod(EProd {
             id: 0,
             source: ProdSource::EL_INSITU,
             values,
             comment: "extra PV".into(),
         }));
+        }
     }
     c
 }
@@ -244,29 +247,62 @@ fn run_case(case: &Value, out: &mut dyn Write) {
     };
     let default_runs = vec![json!({"tag": "base"})];
     let runs = case["runs"].as_array().unwrap_or(&default_runs);
+    // ---- first pass: inputs of every run and the common logging exponent of the case
+    struct Prep {
+        run: Value,
+        comps: Components,
+        fac: Factors,
+        kexp_v: Value,
+        area_v: Value,
+        lm: bool,
+        s: f64,
+        unit: f64,
+        strip_panic: Option<String>,
+    }
+    let mut preps: Vec<Prep> = vec![];
     for run in runs {
-        let tag = run["tag"].as_str().unwrap_or("base");
         let kexp_v = run.get("kexp").unwrap_or(&case["kexp"]).clone();
         let area_v = run.get("area").unwrap_or(&case["area"]).clone();
         let lm = run.get("lm").and_then(|x| x.as_bool()).unwrap_or(case["lm"].as_bool().unwrap_or(false));
-        let kexp = rat(&kexp_v, 0.0) as f32;
-        let area = rat(&area_v, 1.0) as f32;
         let comps = apply_run(&base, run);
         let mut fac = fac0.clone();
+        let mut strip_panic = None;
+        if run.get("strip").and_then(|x| x.as_bool()).unwrap_or(false) {
+            match catch_unwind(AssertUnwindSafe(|| fac.clone().strip(&comps))) {
+                Ok(f) => fac = f,
+                Err(p) => strip_panic = Some(panic_msg(p)),
+            }
+        }
+        // results of a scaled run are logged in units of the scale factor
+        let unit = run.get("scale").map(|x| rat(x, 1.0)).unwrap_or(1.0);
+        let maxf = fac.wdata.iter().fold(1.0f64, |m, f| {
+            [f.ren, f.nren, f.co2].iter().filter(|v| v.is_finite()).fold(m, |m, v| m.max(v.abs() as f64))
+        });
+        let sum_in: f64 = comps
+            .data
+            .iter()
+            .filter(|e| !e.is_out())
+            .map(|e| e.values().iter().map(|x| x.abs() as f64).sum::<f64>())
+            .sum();
+        let s = (sum_in / unit * maxf).max(1.0);
+        preps.push(Prep { run: run.clone(), comps, fac, kexp_v, area_v, lm, s, unit, strip_panic });
+    }
+    let s_case = preps.iter().fold(1.0f64, |m, p| m.max(p.s));
+    let p = exponent(s_case);
+    for pr in preps {
+        let Prep { run, comps, fac, kexp_v, area_v, lm, s: _, unit, strip_panic } = pr;
+        let tag = run["tag"].as_str().unwrap_or("base");
+        let kexp = rat(&kexp_v, 0.0) as f32;
+        let area = rat(&area_v, 1.0) as f32;
         let mut ev = base_ev(tag);
         ev["run"] = run.clone();
         ev["kexp"] = kexp_v;
         ev["area"] = area_v;
         ev["lm"] = json!(lm);
-        if run.get("strip").and_then(|x| x.as_bool()).unwrap_or(false) {
-            match catch_unwind(AssertUnwindSafe(|| fac.clone().strip(&comps))) {
-                Ok(f) => fac = f,
-                Err(p) => {
-                    ev["out"] = fail("strip", "Panic", &panic_msg(p));
-                    writeln!(out, "{}", ev).ok();
-                    continue;
-                }
-            }
+        if let Some(m) = strip_panic {
+            ev["out"] = fail("strip", "Panic", &m);
+            writeln!(out, "{}", ev).ok();
+            continue;
         }
         // ---- echo of the actual inputs of energy_performance
         let ac = flat::abs_of_components(&comps);
@@ -278,14 +314,8 @@ fn run_case(case: &Value, out: &mut dyn Write) {
                 (y - y.round()).abs() < 1e-3 && x.is_finite()
             })
         });
-        let (fj, exact_f, maxf) = factors_json(&fac);
-        let sum_in: f64 = ac
-            .iter()
-            .filter(|c| c.kind != "OUT")
-            .map(|c| c.v.iter().map(|x| x.abs()).sum::<f64>())
-            .sum();
-        let s = (sum_in * maxf).max(1.0);
-        let p = exponent(s);
+        let (fj, exact_f, _maxf) = factors_json(&fac);
+        let s = s_case;
         let pm = exponent(s / (area as f64).max(1e-9));
         ev["N"] = json!(comps.data.first().map(|e| e.num_steps()).unwrap_or(0));
         ev["q"] = json!(q);
@@ -316,11 +346,28 @@ fn run_case(case: &Value, out: &mut dyn Write) {
         );
         match res {
             Outcome::Ok(ep) => {
-                let f = flat::flat_ep(&ep, p, pm);
+                let f = flat::flat_ep_unit(&ep, p, pm, unit);
                 if !f.nonfinite.is_empty() {
                     ev["out"] = fail("eval", "NonFinite", &f.nonfinite.join(" "));
                 } else {
-                    ev["out"] = json!({"ok": true, "flat": f.m});
+                    // structure of the result (which carriers / services / sources exist), so that
+                    // the trace specifications can build the paths they talk about
+                    let mut crs: Vec<String> = ep.balance_cr.keys().map(|c| c.to_string()).collect();
+                    crs.sort();
+                    let mut srvs = serde_json::Map::new();
+                    let mut srcs = serde_json::Map::new();
+                    for (c, b) in &ep.balance_cr {
+                        let mut a: Vec<String> = b.used.epus_by_srv_an.keys().map(|x| x.to_string()).collect();
+                        a.sort();
+                        srvs.insert(c.to_string(), json!(a));
+                        let mut a: Vec<String> = b.prod.by_src_an.keys().map(|x| x.to_string()).collect();
+                        a.sort();
+                        srcs.insert(c.to_string(), json!(a));
+                    }
+                    let balkeys: Vec<&str> = f.m.keys().filter_map(|k| k.strip_prefix("bal.")).collect();
+                    let m2keys: Vec<&str> = f.m.keys().filter_map(|k| k.strip_prefix("m2.")).collect();
+                    ev["out"] = json!({"ok": true, "crs": crs, "srvs": srvs, "srcs": srcs,
+                                       "balkeys": balkeys, "m2keys": m2keys, "flat": f.m});
                 }
             }
             Outcome::Err(k, m) => ev["out"] = fail("eval", k, &m),
